@@ -7,22 +7,27 @@ import LeanHelix.Props.C10
 size, any weights with W ≥ 1), every Byzantine set of weight ≤ f = ⌊(W-1)/3⌋ and every history of
 correct nodes' statements built according to the local rules `Justified` (any length, any
 interleaving; Byzantine members are unconstrained and appear only through the quorum predicates),
-all decisions are equal.  The rules are exactly what the node-level theorems establish:
+all decisions are equal.
 
-| rule in `Justified`                                         | node-level theorem (Term model)                         |
-|-------------------------------------------------------------|---------------------------------------------------------|
-| `acc`: one hash per view                                     | `C10.one_prepare_per_view`, `C10.adoption`              |
-| `acc` in v>0: valid NEW_VIEW certificate …                   | `C07.newview_ignored_unless_valid_certificate`, `C07.accepted_newview_reproposes_lock` |
-| … or a stand-alone proposal not conflicting with own lock    | `bare_preprepare_respects_lock` (below; known finding D5 for C07) |
-| `com`: accepted that hash, prepared certificate              | `C10.commit_hash_is_stored_proposal_hash`, `Term.PreparedCond` |
-| `lcom` / `dec`: commit quorum                                | `C03.commit_callback_payload`                           |
-| `vote`: carries the highest prepared proof                   | `C09.timeout_vote`, `C09.extractProof_spec`             |
-| quorum arithmetic                                            | `C06` (`wt_incl_excl`, `three_f_lt`)                    |
-| only authentic parts count                                   | `C08`                                                   |
+**Local rules, proved for the term model over whole executions (`Props/C01Local.lean`)**:
+`C01Local.local_rules_hold` — for every configuration whose weight fits 64 bits and every sequence of
+deliveries, election triggers, cancellations and SPI answers, the statements a node makes obey the
+node-local part `LocalJ` of every rule; `C01Local.justified_of_local` — `LocalJ` together with the
+certificate part (`Cert`) is `Spec.Justified`.
 
-**Not mechanised**: the composition theorem "the projection of every execution of N Term models
-plus an adversary bound by signature unforgeability is a `Valid` history" (it needs a network model
-with an explicit adversary knowledge relation).  The network-level claim is therefore labelled
+| rule in `Justified`                                         | local part (`LocalJ`, whole executions)  | certificate part: node-level theorem (Term model)       |
+|-------------------------------------------------------------|------------------------------------------|---------------------------------------------------------|
+| `acc`: one hash per view, not below an own vote             | `local_rules_hold`, `one_hash_per_view`  | —                                                       |
+| `acc` in v>0: valid NEW_VIEW certificate …                   | ghost tag `viaNV`                        | `C07.newview_ignored_unless_valid_certificate`, `C07.accepted_newview_reproposes_lock`, `C11NewView.elected_newview_is_valid_certificate` |
+| … or a stand-alone proposal not conflicting with the latest lock | `local_rules_hold` (`lockConflict`)  | `bare_preprepare_respects_lock` (below; known finding D5 for C07) |
+| `com`: accepted that hash in the current view               | `local_rules_hold`                       | prepared certificate: `Term.PreparedCond`, `C08` (only authentic parts count) |
+| `lcom` / `dec`: commit quorum                                | —                                        | `C03.commit_callback_payload`, `Blk.late`               |
+| `vote`: carries the proof of the highest prepared view      | `local_rules_hold` (`voteProof_spec`, persistence of the extractable proof) | `C09.timeout_vote`, `C09.extractProof_spec`, `WorkerInvariants.reachable_own_vote_valid` |
+| quorum arithmetic                                            |                                          | `C06` (`wt_incl_excl`, `three_f_lt`)                    |
+
+**Not mechanised**: the global composition — interleaving the statement lists of N nodes into one
+history and discharging the certificate parts from signature unforgeability (it needs a network
+model with an explicit adversary knowledge relation).  The network-level claim is therefore labelled
 partial; it is exercised on real nodes by the `node` suite (adversary library, agreement monitor).
 -/
 namespace LeanHelix.C01
